@@ -16,6 +16,11 @@ CHECKS = {
    text="For every N<=7, m<=4 (quick; N<=9, m<=5 thorough), no fault and every single failing chunk (transport error, status 500, non-JSON body), all interleavings of the chunk workers, the reducer and the caller of the real MultiOpQueryer.Query are enumerated against an in-memory transport; per execution: exactly N results, result i answers request i, each request in exactly one call, no call larger than m, a failing call yields an error and no partial slice, no deadlock/fatal/leak.",
    note="Trusted: vrewrite rules, vrt semantics, the in-memory RoundTripper as the only environment; scope bounded by N, m and one fault per scenario.",
    ref="DESIGN.md §6 C11"),
+ "C01": dict(engine="enum", cat="exploration",
+   technique="bounded-exhaustive enumeration (small-scope model checking of the input space): every selection tree with <=K fields and every single decoration, over base worlds plus bounded world/data/config deviations, run through the real Gateway.Handler against evaluating in-memory services and compared with a single-server reference evaluator",
+   text="Exhaustive within stated bounds (K<=5 on the base worlds, K<=4 with one world or data atom, every single operation decoration at every position with K<=4, 5 gateway configurations quick / 8 thorough): data must equal the reference after the symmetric empty-object pruning and errors must be empty. Failures are clustered by (semantic atoms of the case, abstracted signature) and only clusters listed in known_findings.json are tolerated.",
+   note="Trusted: harness/gqlref evaluator, canonical data model, gqlparser parser/validator, worker plumbing. Inputs outside the bounds (more fields, more simultaneous atoms) are not covered.",
+   ref="DESIGN.md §6 C01"),
 }
 
 NOT_YET = {}
